@@ -247,19 +247,25 @@ Definition thread_in_cs (i : nat) (s : state) : bool :=
 Definition check_loop (k kr : nat) (roles : list role) : bool :=
   let T := explore true k (init roles) in
   let all := all_states T in
-  mem (init roles) T && closed true T &&
-  forallb (fun s => has_enabled true s && no_fault true s && mutex_ok s) all &&
-  forallb (fun i => match fst (can_reach true kr (thread_in_cs i) all) with [] => true | _ => false end)
-          (seq 0 (length roles)).
+  (* `if` rather than && : the VM is strict, and the later checks are expensive
+     when the table is not closed (unbounded state space of a broken lock) *)
+  if mem (init roles) T && closed true T then
+    if forallb (fun s => has_enabled true s && no_fault true s && mutex_ok s) all then
+      forallb (fun i => match fst (can_reach true kr (thread_in_cs i) all) with [] => true | _ => false end)
+              (seq 0 (length roles))
+    else false
+  else false.
 
 (* loop = false (one session per thread): every non-final state has an enabled
    step and can reach the state in which all threads have finished *)
 Definition check_once (k kr : nat) (roles : list role) : bool :=
   let T := explore false k (init roles) in
   let all := all_states T in
-  mem (init roles) T && closed false T &&
-  forallb (fun s => (all_finished s || has_enabled false s) && no_fault false s && mutex_ok s) all &&
-  match fst (can_reach false kr all_finished all) with [] => true | _ => false end.
+  if mem (init roles) T && closed false T then
+    if forallb (fun s => (all_finished s || has_enabled false s) && no_fault false s && mutex_ok s) all then
+      match fst (can_reach false kr all_finished all) with [] => true | _ => false end
+    else false
+  else false.
 
 Definition roles_of (nr nw : nat) : list role := repeat Reader nr ++ repeat Writer nw.
 
